@@ -403,9 +403,30 @@ func fetcherCase(c *lib.Ctx) {
 		}()
 	}()
 
+	// In a third of the cases every Add / Flush call gets a context of its own that ends as soon as the call has
+	// returned, while the fetcher lives on (the source runner calls with its deployment context, the time-out
+	// flushes run under the fetcher's own): a result must reach Output whatever happened to the context of the
+	// call that started its fetch, or of any other call.
+	perCall := r.Intn(3) == 0
+	if perCall {
+		c.Feat("cases_with_per_call_contexts", 1)
+	}
+	callCtx := func() (context.Context, func()) {
+		if !perCall {
+			return ctx, func() {}
+		}
+		return context.WithCancel(ctx)
+	}
+	flushCall := func() {
+		cx, end := callCtx()
+		f.rf.Flush(cx)
+		end()
+	}
 	add := func(id int) {
 		f.logf("add(%d)", id)
-		f.rf.Add(ctx, id)
+		cx, end := callCtx()
+		f.rf.Add(cx, id)
+		end()
 		f.added.Store(int64(id))
 	}
 	var adderFinished atomic.Bool
@@ -438,11 +459,11 @@ func fetcherCase(c *lib.Ctx) {
 					timeoutFlushes++
 				} else {
 					f.logf("flush() [timer was not armed]")
-					f.rf.Flush(ctx)
+					flushCall()
 				}
 			case "explicit":
 				f.logf("flush()")
-				f.rf.Flush(ctx)
+				flushCall()
 			}
 			bounds[i+1] = total
 			f.awaitArrivals(i+1, "batch "+trig)
@@ -482,13 +503,13 @@ func fetcherCase(c *lib.Ctx) {
 				switch {
 				case st[1] == 0:
 					f.logf("flush()")
-					f.rf.Flush(ctx)
+					flushCall()
 				case st[1] < 5 && !real && lt.Fire():
 					f.logf("timer expires")
 				}
 			}
 			f.logf("flush() [final]")
-			f.rf.Flush(ctx)
+			flushCall()
 			adderFinished.Store(true)
 		}()
 	default: // overtake
@@ -552,7 +573,7 @@ func fetcherCase(c *lib.Ctx) {
 			}
 		}
 		f.logf("flush() [final]")
-		f.rf.Flush(ctx)
+		flushCall()
 		adderFinished.Store(true)
 	}
 
